@@ -49,7 +49,7 @@ def run(prop, tier, seed, work):
     mixes = [("struct", "list"), ("struct", "mapval"), ("list", "struct"), ("mapval", "list"), ("list", "mapval"), ("struct", "ulist"), ("ustruct", "ulist")]
     mdepths = [1, 2, 10, 20, 23, 24, 30, 40, 100, 250, 255, 256, 300, 500, 510, 511, 512, 600, 1000, 1500, 3000, 100000]
     for (pfx, pat) in mixes:
-        for pre in (range(1, 8) if not quick else (1, 2, 3, 4, 5)):
+        for pre in (range(1, 16) if not quick else (1, 2, 3, 4, 5)):
             sid = "C15-mix-%s*%d+%s" % (pfx, pre, pat)
             scen.append({"sid": sid, "prop": prop, "vals": [], "tags": ["mix"], "dkey": sid,
                          "steps": [{"op": "deep", "ty": "Re", "prefix": pfx, "pre": pre, "pattern": pat, "depths": mdepths, "bisect": True}]})
